@@ -159,7 +159,7 @@ class AFunction:
         tp = t.p if isinstance(t, AT) else Poly.lift(t)
         if tp is None or not isinstance(y, AT):
             raise Unsupported(f'A domain: {self.name}({t!r}, {y!r})')
-        key = (repr(tp), repr(y.p))
+        key = (tp.key(), y.p.key())
         if key not in self.atoms:
             nm = f'{self.name}#{len(self.atoms)}'
             self.atoms[key] = nm
